@@ -595,12 +595,17 @@ func (s *scen) readMonitor(st *chainsim.Step, v func(key, what string)) {
 		if debit.Cmp(want) != 0 {
 			v("C15:read-pool-debit-differs-from-price-times-new-reads:"+rel, fmt.Sprintf("counter %d after last redeemed %d at read price %d/GiB: read pool debited %s, want %s", rm.ReadCounter, last, price, debit, want))
 		}
+		stored := false
 		for p, m := range post.readConns {
 			if world.Tap.KeyOf(p) == key {
-				if m.ReadCounter < last || m.ReadCounter != maxI(last, rm.ReadCounter) {
+				stored = true
+				if m.ReadCounter != maxI(last, rm.ReadCounter) {
 					v("C15:stored-counter-not-max:"+rel, fmt.Sprintf("stored counter %d after redeeming %d over %d", m.ReadCounter, rm.ReadCounter, last))
 				}
 			}
+		}
+		if !stored {
+			v("C15:redeemed-marker-not-recorded:"+rel, fmt.Sprintf("no last-redeemed record for (blobber, client, allocation) after counter %d was accepted", rm.ReadCounter))
 		}
 	}
 	// every other change of a read pool must be a lock (by exactly the value) or the owner's unlock
